@@ -29,13 +29,13 @@ func checkC14(c *Check, a *Anchors) {
 
 func c14Registration(c *Check, a *Anchors) {
 	c.Rule("defer-registration", "in the cmds loop a defer entry is registered with a Go `defer` of the deferred-command runner on the true edge of Cmd.Defer, receives the loop variable, and is followed by `continue` (never run inline, never twice); the command runner is called only on the false edge of Cmd.Defer; the deferred-command runner is invoked nowhere else")
-	body := a.BodyClosure
+	body := a.LoopFn
 	info := body.Info()
 	c.Fn(body)
 	f := NewFlow(c.P, body, a.labelRun(info))
 	f.Run()
 	loop, lb := cmdsLoop(a)
-	name := fnDisplay(body)
+	name := fnDisplay(a.BodyClosure)
 	if loop == nil {
 		c.Errorf("defer-registration: cmds loop not found")
 		return
@@ -196,9 +196,9 @@ func c14Runner(c *Check, a *Anchors) {
 
 func c14ExitCode(c *Check, a *Anchors) {
 	c.Rule("exit-code-visible", "the deferred-command runner receives the address of a local of the task body; on every failing return after an exit-status command error that local has been assigned the exit code; the runner injects EXIT_CODE only when the code is > 0")
-	body := a.BodyClosure
+	body := a.LoopFn
 	info := body.Info()
-	name := fnDisplay(body)
+	name := fnDisplay(a.BodyClosure)
 	var cell *types.Var
 	inspectBody(body.Body, func(nd ast.Node) bool {
 		if d, ok := nd.(*ast.DeferStmt); ok && a.is(callee(info, d.Call), a.DeferRunner) {
